@@ -296,7 +296,7 @@ Lemma stored_entry_indexes ex p ver ts : e_indexes (stored_entry ex p ver ts) = 
 Proof. destruct ex; reflexivity. Qed.
 
 Lemma finish_put_inv w p ex rk ts :
-  inv (w_kv w) -> op_key (p_key p) -> pk_ok (p_key p) -> Forall si_ok (p_indexes p) ->
+  inv (w_kv w) -> op_key (p_key p) -> (p_indexes p <> [] -> pk_ok (p_key p)) -> Forall si_ok (p_indexes p) ->
   match ex with Some e => kv_get (w_kv w) (p_key p) = Some (VRecord e) | None => kv_get (w_kv w) (p_key p) = None end ->
   inv (w_kv (fst (finish_put wrapper_callbacks w p ex rk ts))).
 Proof.
@@ -329,7 +329,7 @@ Proof.
     rewrite kv_get_put_other by exact Hne. rewrite kv_get_write_indexes.
     destruct (in_dec dec_key x (map (index_key k) (p_indexes p))); [reflexivity|apply G2]. }
   apply (inv_update b _ k old (p_indexes p)); try assumption.
-  - intros si Hin. split; [|exact Hpk]. rewrite Forall_forall in Hsi. apply Hsi. exact Hin.
+  - intros si Hin. split; [|apply Hpk; intro E; rewrite E in Hin; contradiction]. rewrite Forall_forall in Hsi. apply Hsi. exact Hin.
   - intros x e G Hne. rewrite G4 in G. destruct (dec_key x k) as [->|Hxk]; [exact Hk|].
     destruct (in_dec dec_key x (map (index_key k) (p_indexes p))).
     + inversion G; subst e. exfalso. apply Hne. reflexivity.
@@ -389,19 +389,36 @@ Proof.
     + apply Forall_app. split; [exact Hb|]. constructor; [unfold DASH; lia|apply pad20_bytes].
 Qed.
 
-Lemma generate_key_pk_ok b p nk : pk_ok (p_key p) -> generate_key b p = SeqOk nk -> pk_ok nk.
+Lemma seq_loop_pk_ok1 d tl idx parts acc k :
+  is_bytes acc -> seq_loop idx (d :: tl) parts acc = SeqOk k -> pk_ok k.
 Proof.
-  intros Hi H. unfold generate_key in H.
+  simpl. intros Hb H.
+  destruct (Nat.eqb idx 0 && (d =? 0)%N); [discriminate|].
+  destruct (match nth_error parts idx with Some part => scan20 part | None => Some 0%N end) as [lastv|]; [|discriminate].
+  destruct (_ || _); [discriminate|].
+  eapply seq_loop_pk_ok; [|exact H]. split.
+  - intro E. apply app_eq_nil in E. destruct E as [_ E]. discriminate.
+  - apply Forall_app. split; [exact Hb|]. constructor; [unfold DASH; lia|apply pad20_bytes].
+Qed.
+
+Lemma generate_key_pk_ok b p nk :
+  is_bytes (p_key p) -> p_deltas p <> [] -> generate_key b p = SeqOk nk -> pk_ok nk.
+Proof.
+  intros Hi Hd H. unfold generate_key in H.
   destruct (p_partition p); [|discriminate]. destruct (p_expected p); [discriminate|].
   destruct (current_last_parts b (p_key p) (length (p_deltas p))) as [parts|e]; [|discriminate].
   destruct (seq_loop 0 (p_deltas p) parts (p_key p)) as [k| |e] eqn:L; try discriminate.
-  assert (Hk : pk_ok k) by (eapply seq_loop_pk_ok; eassumption).
+  assert (Hk : pk_ok k).
+  { destruct (p_deltas p) as [|d tl]; [congruence|]. eapply seq_loop_pk_ok1; eassumption. }
   destruct (current_last_key b (p_key p)) as [|c lk]; [inversion H; subst; exact Hk|].
   destruct (cmp_slash k (c :: lk)); try discriminate. inversion H; subst; exact Hk.
 Qed.
 
+(* a put the invariant can absorb: user key or session key; declared indexes in the alphabet; a record that
+   declares indexes has a non-empty byte-string key (the generated key of a sequence put always is) *)
 Definition put_ok (p : put_req) : Prop :=
-  op_key (p_key p) /\ pk_ok (p_key p) /\ Forall si_ok (p_indexes p) /\
+  op_key (p_key p) /\ Forall si_ok (p_indexes p) /\
+  (p_indexes p <> [] -> is_bytes (p_key p) /\ (p_deltas p = [] -> p_key p <> [])) /\
   (p_deltas p <> [] -> is_internal (p_key p) = false).
 
 (* C16's freshness, as far as C15 needs it: a sequence put never lands on a key that holds something *)
@@ -415,15 +432,17 @@ Lemma apply_put_inv w p ts :
   inv (w_kv w) -> put_ok p -> put_fresh (w_kv w) p ->
   inv (w_kv (fst (apply_put wrapper_callbacks w p ts))).
 Proof.
-  intros Hi [Hk [Hpk [Hsi Hseq]]] Hf. unfold apply_put, put_fresh in *.
+  intros Hi [Hk [Hsi [Hpk Hseq]]] Hf. unfold apply_put, put_fresh in *.
   destruct (p_deltas p) as [|d0 dtl] eqn:D.
   - destruct (check_expected (w_kv w) (p_key p) (p_expected p)) as [ex| |e] eqn:C; simpl; try exact Hi.
-    apply finish_put_inv; try assumption. eapply check_expected_ck. exact C.
+    apply finish_put_inv; try assumption.
+    + intro Hne. destruct (Hpk Hne) as [Hb Hn]. split; [apply Hn; reflexivity|exact Hb].
+    + eapply check_expected_ck. exact C.
   - destruct (generate_key (w_kv w) p) as [nk| |e] eqn:G; simpl; try exact Hi.
     assert (H1 : inv (w_kv (fst (finish_put wrapper_callbacks w (set_key p nk) None (Some nk) ts)))).
     { apply finish_put_inv; simpl; try assumption.
       - left. eapply generate_key_not_internal; [|exact G]. apply Hseq. discriminate.
-      - eapply generate_key_pk_ok; eassumption. }
+      - intro Hne. destruct (Hpk Hne) as [Hb _]. eapply generate_key_pk_ok; [exact Hb| |exact G]. rewrite D. discriminate. }
     destruct (finish_put wrapper_callbacks w (set_key p nk) None (Some nk) ts) as [w1 [r|e]]; simpl in *; [|exact H1].
     destruct (pr_key r); exact H1.
 Qed.
